@@ -65,8 +65,9 @@ Section Meta.
 
   (* what happens to the bias: a step of the engine; the state being written (end of a run, restart
      frequency); a restart: the state is written and read by a fresh instance with the same configuration,
-     except, with [Some g], for new grid boundaries g and rebinGrids on *)
-  Inductive event := EStep (i : step_in) | ESave | ERestart (rebin : option (list bound)).
+     except, with [Some g], for new grid boundaries g and rebinGrids on; a reload: the state is written and read
+     back by the same instance, which already holds hills *)
+  Inductive event := EStep (i : step_in) | ESave | ERestart (rebin : option (list bound)) | EReload.
 
   (* ---- metric of one variable: colvar::dist2 / dist2_lgrad ---- *)
 
@@ -449,8 +450,17 @@ Section Meta.
     let s1 := read_state c (save_state c s) in
     match rebin with None => s1 | Some g' => rebin_state c s1 g' end.
 
+  (* the state read by the instance that wrote it: the hills and off-grid hills in memory are pruned, those of the
+     file take their place; the hills trajectory buffer of the instance is untouched *)
+  Definition reload_state (c : cfg) (s : state) : state :=
+    let s1 := read_state c (save_state c s) in
+    mkState (st_old s1) (st_new s1) (st_off_old s1) (st_off_new s1) (st_e s1) (st_g s1) (st_geom s1) (st_traj s).
+
   Definition apply_event (c : cfg) (s : state) (e : event) : state :=
-    match e with EStep i => step_state c s i | ESave => save_state c s | ERestart r => restart_state c s r end.
+    match e with
+    | EStep i => step_state c s i | ESave => save_state c s | ERestart r => restart_state c s r
+    | EReload => reload_state c s
+    end.
 
   Definition final_state (c : cfg) (hist : list event) : state :=
     fold_left (apply_event c) hist (init_state c).
